@@ -22,7 +22,8 @@ type c07Crash struct {
 
 func walCrashAlphabet() []sess.Op {
 	var ops []sess.Op
-	for _, v := range []string{"a", "I10", "I100"} {
+	// 17 and 20 bytes: records just above the 16-byte write buffer, whose tail stays buffered after the header went out
+	for _, v := range []string{"a", "I10", "I17", "I20", "I100"} {
 		ops = append(ops, sess.Op{Op: "append", V: v}, sess.Op{Op: "appendsync", V: v})
 	}
 	return append(ops, sess.Op{Op: "walrotate"})
@@ -42,7 +43,7 @@ func c07CrashHalf(ctx *core.Ctx) error {
 	}
 	ctx.Ev.Bounds["crash_half_sessions"] = len(cases)
 	ctx.Ev.Bounds["crash_half_max_program_length"] = maxLen
-	ctx.Ev.Notes = append(ctx.Ev.Notes, "crash half: every program of Append/AppendSync/Rotate up to the bound over records of 1, 10 and 100 bytes x size limits {24, 64, default} with a 16-byte write buffer runs in a traced child; at every boundary between two mutating system calls the directory image is replayed by a fresh process; for every synchronous append the trace must show write(s) to the current log file followed by an fsync of it, with no later write, before the call returns")
+	ctx.Ev.Notes = append(ctx.Ev.Notes, "crash half: every program of Append/AppendSync/Rotate up to the bound over records of 1, 10, 17, 20 and 100 bytes x size limits {24, 64, default} with a 16-byte write buffer runs in a traced child; at every boundary between two mutating system calls the directory image is replayed by a fresh process; for every synchronous append the trace must show write(s) to the current log file followed by an fsync of it, with no later write, before the call returns")
 	rs := ctx.Pmap(cases)
 	ctx.Fold(rs, cases)
 	for i, r := range rs {
